@@ -7,7 +7,10 @@ package grid
 
 import (
 	"bytes"
+	"context"
 	"fmt"
+	"github.com/buchgr/bazel-remote/v2/cache"
+	"io"
 	"os"
 	"path/filepath"
 	"sort"
@@ -189,6 +192,7 @@ func TestC02(t *testing.T) {
 	}
 	c02CheckTree(rep, rf, cfg, treeRoot, dirs)
 	c02CheckAR(rep, rf, cfg, arKey, blobs)
+	c02Overlap(rep, rf, cfg, blobs)
 	for _, p := range rf.takePanics() {
 		rep.Violate("C14 handler panic during C02", p, nil)
 	}
@@ -388,4 +392,84 @@ func TestC02Empty(t *testing.T) {
 		f.close()
 	}
 	rep.Sample("empty blob on " + strings.Join(readPaths, ","))
+}
+
+// c02Overlap: two readers alive at the same time (two requests whose streaming overlaps): every
+// order of {open A, open B, drain A, drain B} in which each reader is opened before it is
+// drained, for plain and zstd readers at unaligned offsets. A reader must keep delivering its own
+// blob's bytes whatever other readers are opened or drained meanwhile (no shared scratch buffer).
+func c02Overlap(rep *vlib.Report, f *fx, cfg string, blobs []c02Blob) {
+	var big []c02Blob
+	for _, b := range blobs {
+		if len(b.data) > 1<<20 {
+			big = append(big, b)
+		}
+	}
+	if len(big) < 2 {
+		return
+	}
+	a, b := big[0], big[len(big)-1]
+	type rd struct {
+		blob c02Blob
+		off  int64
+		zstd bool
+		rc   io.ReadCloser
+	}
+	open := func(r *rd) error {
+		var err error
+		if r.zstd {
+			r.rc, _, err = f.cache.GetZstd(context.Background(), r.blob.hash, int64(len(r.blob.data)), r.off)
+		} else {
+			r.rc, _, err = f.cache.Get(context.Background(), cache.CAS, r.blob.hash, int64(len(r.blob.data)), r.off)
+		}
+		if err == nil && r.rc == nil {
+			err = fmt.Errorf("miss")
+		}
+		return err
+	}
+	drain := func(r *rd) ([]byte, error) {
+		data, err := io.ReadAll(r.rc)
+		_ = r.rc.Close()
+		if err == nil && r.zstd {
+			data, err = vlib.ZstdDecodeAll(data)
+		}
+		return data, err
+	}
+	orders := []string{"oA oB dA dB", "oA oB dB dA", "oB oA dA dB", "oB oA dB dA", "oA dA oB dB", "oB dB oA dA"}
+	for _, za := range []bool{false, true} {
+		for _, zb := range []bool{false, true} {
+			for _, offs := range [][2]int64{{1, 1}, {1, 1<<20 + 1}, {1<<20 - 1, 7}} {
+				for _, order := range orders {
+					rep.Eval()
+					ra := &rd{blob: a, off: offs[0], zstd: za}
+					rb := &rd{blob: b, off: offs[1], zstd: zb}
+					id := fmt.Sprintf("%s overlapping readers A=%s@%d zstd=%v B=%s@%d zstd=%v order=[%s]", cfg, a.name, offs[0], za, b.name, offs[1], zb, order)
+					bad := ""
+					for _, step := range strings.Fields(order) {
+						r := ra
+						if step[1] == 'B' {
+							r = rb
+						}
+						if step[0] == 'o' {
+							if err := open(r); err != nil {
+								bad = fmt.Sprintf("open %c: %v", step[1], err)
+								break
+							}
+							continue
+						}
+						data, err := drain(r)
+						if err != nil || !bytes.Equal(data, r.blob.data[r.off:]) {
+							bad = fmt.Sprintf("reader %c delivered %d bytes, err=%v, equal to its range: %v", step[1], len(data), err, bytes.Equal(data, r.blob.data[r.off:]))
+							break
+						}
+					}
+					if bad != "" {
+						rep.Violate("C02 overlapping readers disturb each other", id+": "+bad, nil)
+					} else {
+						rep.Nontrivial(id)
+					}
+				}
+			}
+		}
+	}
 }
